@@ -390,7 +390,6 @@ theorem shotCols_tabs (tabs : List Tab) : ∀ (counts : List Nat), counts.length
   · simp [hlen]
   · intro k h1 h2
     simp at h1 h2 ⊢
-    rw [List.getElem?_eq_getElem h2]
 
 /-- **per-shot reading of the stabilizer `apply_conditional_gate`**: the gate is applied to the tableau of
 exactly the shots whose mask bit is set -/
